@@ -65,10 +65,26 @@ func (w *world) prepareCred(cv credVal, tk *tableKeys) prepared {
 	return p
 }
 
-func (w *world) resetSession(j *judge, cookie string) {
-	sp := &reqSpec{Via: "handler", Method: "GET", Host: testHost, Path: "/api/v1/auth/reset", Cookie: cookieName + "=" + cookie,
+func (w *world) resetSession(j *judge, cookie string) { w.resetSessionWith(j, cookie, "") }
+
+// resetAuthzVariants: Authorization headers a client may send along with the reset request.
+func resetAuthzVariants(tk *tableKeys) []string {
+	out := []string{"", "Basic " + b64("someone:secret"), "Basic " + b64(":"), "Bearer abcdefgh", "Basic !!!", "Basic", "basic " + b64("a:b"), "Digest x"}
+	if tk != nil {
+		out = append(out, "Basic "+b64(tk.Perm["admin/admin"]+":"), "Bearer "+tk.Perm["user/user"], "Basic "+b64(tk.Unknown+":"))
+	}
+	return out
+}
+
+// resetSessionWith resets the session of the cookie through /api/v1/auth/reset; the
+// request may carry an Authorization header as well. Afterwards the session is gone.
+func (w *world) resetSessionWith(j *judge, cookie, authz string) {
+	sp := &reqSpec{Via: "handler", Method: "GET", Host: testHost, Path: "/api/v1/auth/reset", Cookie: cookieName + "=" + cookie, Authz: authz,
 		Target: mTarget{Route: "endpoint", DeclR: mAnyone, DeclW: mNotSupported}}
 	o := w.do(sp)
+	if authz != "" {
+		w.b.Count("session_resets_with_authorization", 1)
+	}
 	w.b.Count("session_resets", 1)
 	if o.Status != 401 {
 		w.b.Note("auth/reset answered %d (documented 401)", o.Status)
@@ -166,7 +182,7 @@ func runTable(w *world, j *judge, cs childSpec) error {
 			continue
 		}
 		if cv.SessKind == "reset" {
-			w.resetSession(j, p.cookie)
+			w.resetSessionWith(j, p.cookie, cv.ResetAuthz)
 		}
 		for _, t := range targets {
 			for _, mv := range methodVars {
@@ -205,7 +221,7 @@ func runTable(w *world, j *judge, cs childSpec) error {
 // onePerClass picks one credential value of every kind (for the sub-tables).
 func onePerClass(tk *tableKeys) []credVal {
 	want := map[string]bool{"none": true, "auth-ok/3/3": true, "auth-ok/2/1": true, "auth-ok/100/4": true, "auth-nil": true, "auth-err": true, "auth-deny": true,
-		"cookie-valid/3/3": true, "cookie-valid/1/2": true, "cookie-expired/4/4": true, "cookie-reset": true, "cookie-unknown": true,
+		"cookie-valid/3/3": true, "cookie-valid/1/2": true, "cookie-expired/4/4": true, "cookie-reset": true, "cookie-reset/authz1": true, "cookie-reset/authz4": true, "cookie-unknown": true,
 		"key/admin/admin/bearer": true, "key/user/anyone/basic-user": true, "key/anyone/admin/basic-pass": true, "key/user/user/basic-split": true,
 		"key/noperm/bearer": true, "key/short-valid/bearer": true, "key/future/bearer": true, "key/expired-at-config/bearer": true,
 		"key/unknown/bearer": true, "key/unknown/basic-user": true, "key/unknown-len3/bearer": true, "key/unknown-len0/basic": true, "key/unknown-len2/basic-pass": true,
@@ -240,7 +256,7 @@ func (w *world) prepareAll(j *judge, cvs []credVal, tk *tableKeys) ([]prepared, 
 			return nil, fmt.Errorf("credential %s: %s", cv.Tag, ps[i].skip)
 		}
 		if cv.SessKind == "reset" {
-			w.resetSession(j, ps[i].cookie)
+			w.resetSessionWith(j, ps[i].cookie, cv.ResetAuthz)
 		}
 	}
 	return ps, nil
@@ -460,6 +476,9 @@ func runReplay(w *world, j *judge, cs childSpec) error {
 	case "revoke":
 		cs.N = 5
 		return runRevoke(w, j, cs)
+	case "burst":
+		cs.N = 20
+		return runBurst(w, j, cs)
 	case "keyperm":
 		return runKeyPerm(w, j, cs)
 	case "badentry-before", "badentry-after":
@@ -497,6 +516,10 @@ func runReplay(w *world, j *judge, cs childSpec) error {
 		j.b.DistinctS("replay-b")
 		return nil
 	}
+	if strings.HasPrefix(head.Mode, "revokeby") {
+		cs.N = 2
+		return runRevokeBy(w, j, cs)
+	}
 	var tr tableReplay
 	if err := json.Unmarshal(cs.Replay, &tr); err != nil {
 		return err
@@ -515,7 +538,7 @@ func runReplay(w *world, j *judge, cs childSpec) error {
 				w.expireSessions()
 			}
 			if cv.SessKind == "reset" {
-				w.resetSession(j, p.cookie)
+				w.resetSessionWith(j, p.cookie, cv.ResetAuthz)
 			}
 			if cv.WaitSoon {
 				_ = w.waitSoon(tk)
